@@ -66,7 +66,7 @@ def streams(ctx):
         for li, ln in enumerate(lines):
             if not any(d[1] and d[1] in ln for d in declared):
                 continue
-            cols = range(len(ln) + 1) if (tier != "quick" and len(dcases) < 150000) else sorted(set([0, len(ln)] + [ln.find(d[1]) + k for d in declared if d[1] in ln for k in (-1, 0, 1, len(d[1]) - 1, len(d[1]))]))
+            cols = range(len(ln) + 1) if (tier != "quick" and len(dcases) < 40000) else sorted(set([0, len(ln)] + [ln.find(d[1]) + k for d in declared if d[1] in ln for k in (-1, 0, 1, len(d[1]) - 1, len(d[1]))]))
             for ch in cols:
                 if ch < 0:
                     continue
